@@ -35,6 +35,9 @@ def main():
             print(sid, 'patch does not apply')
             continue
         res = {}
+        # a change written against one property may break another one: such alarms are listed in meta.json (expected_alarms) after
+        # the witness has been confirmed against the other property's statement; they must then fire
+        expected = json.load(open(os.path.join(d, 'meta.json'))).get('expected_alarms', {})
         try:
             t = sh([os.path.join(V, 'baseline_off.sh')])
             res['tests'] = t.returncode
@@ -44,13 +47,14 @@ def main():
                 res[q] = {'exit': c.returncode, 'keys': keys[:4]}
                 if c.returncode == 2:
                     res[q]['stderr'] = c.stderr[-600:]
-                if c.returncode != 0:
+                if c.returncode != 0 and q not in expected:
                     bad += 1
         finally:
             sh(['git', '-C', WT, 'checkout', '--', '.'])
         m = json.load(open(os.path.join(d, 'meta.json')))
         m['checked_by_me'] = {'ran': 'tools_benign.py: git -C /repo apply; baseline_off.sh; quick checks of the property and related ones; git checkout', 'result': res,
-                              'all_checks_silent': all(v['exit'] == 0 for k, v in res.items() if k != 'tests')}
+                              'all_checks_silent': all(v['exit'] == 0 for k, v in res.items() if k != 'tests' and k not in expected),
+                              'expected_alarms_fired': all(res.get(k, {}).get('exit') == 1 for k in expected)}
         json.dump(m, open(os.path.join(d, 'meta.json'), 'w'), indent=1)
         print(sid, 'tests', res['tests'], {k: v['exit'] for k, v in res.items() if k != 'tests'}, flush=True)
     sh(['git', '-C', '/repo', 'worktree', 'remove', '--force', WT])
